@@ -14,6 +14,7 @@ LEAN_HELPERS = ['MV.Lemmas.Text', 'MV.Lemmas.TextPrint', 'MV.Lemmas.TextChord', 
                 'MV.Lemmas.Equality', 'MV.Lemmas.Window', 'MV.Lemmas.Asc']
 DRIVERS = ['C05']
 GEN = ['Tables', 'Library', 'Dynamics', 'NoteAttrs']
+SRC_TIE = ['SrcText']   # py2lean source images of Note.to_code / amp_figure and of the melody / tonality / chord / custom chord / score printers proved equal to the text of the model's codes (MV/Props/TieSrcText.lean)
 RULE = ('objects described field by field over the library symbols (17 kinds x every library value, octaves, table '
         'and augment durations, modes, accidentals, the nine dynamics and integer amplitudes, tags; chords over every '
         'degree / valid extension text / tonality / octave with 1..4 parts incl. drums; custom chords; scores of 1..5 '
@@ -747,6 +748,9 @@ def correspondence(ctx):
                       'impl': py_res(lambda: type(s).from_sequence(df), lambda r: '(' + ' '.join(str(enc_chord(c, True)) for c in r.chords) + ')'),
                       'input': {'kind': 'score', 'j': j}, 'bucket': ['df=fromrows', f'rows={len(df)}']})
     ctx.compare('rows', 'C05', cases)
+    # kernel-level streams of the source tie (DESIGN §9.6): the printers function by function, against the model and the source image
+    import srctie
+    srctie.run(ctx, SRC_TIE)
 
 # --- DataFrame helpers
 
